@@ -243,12 +243,28 @@ Print Assumptions C14_uniq_indexed_refines_spec_float.
 
 (* ================================================================== rebin *)
 
-(* the per-axis pass (floor of the exact product, Python slices) = integer-subscript IDL rule,
-   for every element type (scalars, rows, planes), every array, every new extent *)
-Theorem C14_rebin_axis_refines_spec : forall (T : Type) (o : ops T) sample (xs : list T) d,
-  rebin_axis o sample xs d = rebin_axis_spec o sample xs d.
+(* the per-axis pass over the GENERATED expressions of all three branches (integer subscript (i*d0)//d, exact
+   p = (i*d0)/d, the `p < d0-1` bound, neighbour subscripts, loop bounds, shrink factor / block bounds) =
+   integer-subscript IDL rule, for every element type (scalars, rows, planes), every array, every new extent,
+   for element rules oM that agree with the specification's on proper-fraction weights *)
+Theorem C14_rebin_axis_refines_spec : forall (T : Type) (o oM : ops T) sample (xs : list T) d,
+  ops_agree oM o -> rebin_axis oM sample xs d = rebin_axis_spec o sample xs d.
 Proof. exact rebin_axis_refines_spec. Qed.
 Print Assumptions C14_rebin_axis_refines_spec.
+(* the GENERATED exact integer path (num = lo*m + (i % m)*(hi - lo); |num| // m, negated for num < 0) is the
+   truncation toward zero of the exact interpolant; hence M's element rules agree with S's, also when lifted *)
+Theorem C14_rebin_int_path_is_truncation : forall t a b : Q, 0 <= Qnum t < Zpos (Qden t) ->
+  expand_int_path t a b = lin (ops_elem DInt) t a b.
+Proof. exact int_path_is_truncation. Qed.
+Print Assumptions C14_rebin_int_path_is_truncation.
+Theorem C14_rebin_ops_agree : forall k,
+  ops_agree (ops_gen k) (ops_elem k) /\ ops_agree (ops_lift (ops_gen k)) (ops_lift (ops_elem k)) /\
+  ops_agree (ops_lift (ops_lift (ops_gen k))) (ops_lift (ops_lift (ops_elem k))).
+Proof.
+  exact (fun k => conj (ops_gen_agree k) (conj (ops_lift_agree _ _ (ops_gen_agree k))
+                                               (ops_lift_agree _ _ (ops_lift_agree _ _ (ops_gen_agree k))))).
+Qed.
+Print Assumptions C14_rebin_ops_agree.
 Theorem C14_rebin_refines_spec : forall k s,
   (forall x d, rebin1 k s x d = rebin1_spec k s x d) /\
   (forall x d, rebin2 k s x d = rebin2_spec k s x d) /\
